@@ -79,7 +79,7 @@ func VP_C04_entry_int() {
 	}
 	r := NewRunner()
 	r.SetThis(map[string]interface{}{"v": dv})
-	got, err := r.resolve(context.Background(), vpId("v"))
+	got, err := vpExact(r, context.Background(), vpId("v"))
 	vpAssert("C04/entry-int/no-error", err == nil)
 	x, ok := got.(*decimal.Big)
 	vpAssert("C04/entry-int/is-number", ok)
@@ -116,7 +116,7 @@ func VP_C04_entry_float() {
 	p := pool[vpChoice("f", len(pool))]
 	r := NewRunner()
 	r.SetThis(map[string]interface{}{"v": p.f})
-	got, err := r.resolve(context.Background(), vpId("v"))
+	got, err := vpExact(r, context.Background(), vpId("v"))
 	x, ok := got.(*decimal.Big)
 	vpAssert("C04/entry-float/is-number", err == nil && ok && x != nil)
 	if !ok || x == nil {
